@@ -34,7 +34,8 @@ def match_known(known, prop, ob):
     for k in known.get("findings", []):
         if k.get("property") != prop:
             continue
-        if k.get("obligation") != ob["name"]:
+        # line numbers in Engine-F obligation names ("...#0@L250") are not part of the identity of a finding
+        if re.sub(r"@L\d+", "", k.get("obligation", "")) != re.sub(r"@L\d+", "", ob["name"]):
             continue
         wc = k.get("witness_contains")
         if wc:
@@ -114,7 +115,9 @@ def finish(prop, tier, REG, results, lemma_results, wall, write_evidence=True):
         with open(os.path.join(ROOT, rp), "w") as f:
             json.dump(doc, f, indent=1, default=str)
         status, out = ("no-builder", "")
-        if a["failed"] and a.get("replay") and w.get("inputs"):
+        # a builder named *_search needs no counter-model: it looks for a failing input of the named clause natively
+        # (bounded search on the real code); finding none leaves the violation as no-failing-input-found
+        if a.get("replay") and ((a["failed"] and w.get("inputs")) or a["replay"].endswith("_search")):
             status, out = native_replay(os.path.join(ROOT, rp))
             doc["native_replay"] = {"status": status, "output": out}
             with open(os.path.join(ROOT, rp), "w") as f:
@@ -128,7 +131,7 @@ def finish(prop, tier, REG, results, lemma_results, wall, write_evidence=True):
     # ---- output
     for r in sorted(results, key=lambda r: r["short"]):
         print("[%s] %-60s paths=%-4d vcs=%-5d solver=%6.1fs wall=%6.1fs %s" % (
-            prop, r["short"][:60], r["paths"], len(r["obligations"]), r["solver_s"], r["wall_s"],
+            prop, (r["short"] + (" {%s}" % r["label"] if r.get("label") else ""))[:60], r["paths"], len(r["obligations"]), r["solver_s"], r["wall_s"],
             ("ERRORS: " + "; ".join(r["errors"])) if r.get("errors") else ""))
     for c in crashes:
         print("CRASH in %s:\n%s" % (c["short"], c["crash"]))
@@ -173,7 +176,7 @@ def finish(prop, tier, REG, results, lemma_results, wall, write_evidence=True):
                 "by_backend": by_backend,
                 "solver_s": round(sum(r["solver_s"] for r in results) + sum(l["seconds"] for l in lemma_results), 2),
                 "functions_under_contract": [
-                    {"function": r["key"], "contract": r["short"], "source_sha256_16": r["source_sha"],
+                    {"function": r["key"], "contract": r["short"], "label": r.get("label", ""), "source_sha256_16": r["source_sha"],
                      "lines": list(r["lines"]), "mode": r["mode"], "paths": r["paths"], "exits": r["exits"],
                      "vcs": len(r["obligations"]), "errors": r.get("errors", []),
                      "bounded_loops": r.get("bounded_loops", []), "bounds_hit": r.get("bounds_hit", [])}
